@@ -522,7 +522,9 @@ def observe(hcli, pdir, cfg, message, fill_mode, backend, tag):
     removed = sorted(n for n in before if n not in after)
     o["rev_rc"] = rc
     o["rev_added"], o["rev_changed"], o["rev_removed"] = added, changed, removed
-    o["rev_refused"] = rc != 0 and "Cannot add non-nullable foreign key column" in err
+    # the three explicit refusals of `revision` (each told by one stable substring of its message)
+    o["rev_refused"] = rc != 0 and any(x in err for x in ("Cannot add non-nullable foreign key column",
+                                                          "refusing to overwrite it", "cannot create migration version"))
     o["rev_noterm"] = rc != 0 and "not a terminal" in err
     grev = "OR_err"
     wrote = None
@@ -571,7 +573,7 @@ def prefixed(o, prefix):
 
 def oracle_c13(row, post):
     """returns list of (clause, classifier_index or None, text). classifier indices: classify_cli order
-    (0 sql prefix, 1 invalid enum fill, 2 pattern without version, 3 version saturated)."""
+    (0 sql prefix, 1 invalid enum fill)."""
     o, cfg = row["obs"], row["config"]
     fails = []
     d = o["diff"]
@@ -602,8 +604,7 @@ def oracle_c13(row, post):
         if o["status"] == "err":
             fails.append(("status_sync_iff_no_diff", None, "diff succeeds, status fails"))
     # append-only history
-    saturated = max(row["versions"] or [0]) == 4294967295
-    over = 3 if saturated else 2
+    over = None      # no known class any more: `revision` never overwrites or reuses a version (fix fcb5089)
     if o["rev_removed"] or o["rev_changed"]:
         fails.append(("revision_append_only", over, "revision modified existing migration file(s) %s" % (o["rev_changed"] + o["rev_removed"])))
     if len(o["rev_added"]) > 1:
@@ -614,7 +615,7 @@ def oracle_c13(row, post):
         if v != mx + 1 and not (mx == 4294967295 and v == mx):
             fails.append(("revision_append_only", None, "new version %d, previous maximum %d" % (v, mx)))
         if mx == 4294967295:
-            fails.append(("revision_append_only", 3, "version counter saturated: new migration reuses version %d" % v))
+            fails.append(("revision_append_only", None, "version counter saturated: new migration reuses version %d" % v))
     # the history the tool wrote must stay readable by the tool
     if o["rev"] == "wrote" and post is not None:
         po = post["obs"]
@@ -991,24 +992,28 @@ def export_step(hcli, pdir, cfg, orm, export_arg, plant, tag):
     after2 = read_tree(root)
     models = []
     # the exporter is outside this layer: a failure that is not the normalisation step counts as "render failed"
-    render_failed = rc != 0 and "Failed to normalize" not in err
+    refused = rc != 0 and ("would both be exported to" in err or "which is the module index" in err)
+    render_failed = rc != 0 and "Failed to normalize" not in err and not refused
     for k, r in enumerate(x for x in rows if x["kind"] == "model"):
         rel = os.path.relpath(r["file"], md)
         parts = rel.split(os.sep)
         render_ok = not (render_failed and k == 0)
         models.append("(mkEModel %s %s %s %s)" % (glist(gs(x) for x in parts[:-1]), gs(parts[-1]), r["g"], gbool(render_ok)))
     term = "(mkTree %s %s %s %s %s)" % (ORMS[orm], glist(models), tree_term(before, entities), gbool(rc == 0), tree_term(after, entities))
-    return {"tag": tag, "term": term, "orm": orm, "rc": rc, "rc_fresh": rcf, "rc2": rc2, "stderr": err[-400:], "before": before, "after": after, "fresh": fresh,
+    return {"tag": tag, "term": term, "orm": orm, "rc": rc, "refused": refused, "rc_fresh": rcf, "rc2": rc2, "stderr": err[-400:], "before": before, "after": after, "fresh": fresh,
             "after2": after2, "exported": exported, "n_models": len(models), "export_arg": export_arg, "root": root, "pdir": pdir,
             "model_files": [os.path.relpath(f, md) for f in mfiles],
             "models": {os.path.relpath(f, md): open(f).read() for f in mfiles}, "plant": plant}
 
 
 def oracle_c20(r):
-    """clauses of C20 on the real trees. classifier indices: classify_tree order (0 chain name, 1 collision)."""
+    """clauses of C20 on the real trees (no known class is left: every failure is a violation)."""
     fails = []
     ext = "." + ORM_EXT[r["orm"]]
     if r["rc"] != 0:
+        # a refusal (collision / mod.rs) must leave the directory as it was
+        if r.get("refused") and r["after"] != r["before"]:
+            fails.append(("export_collision_refused", None, "export refused but changed the directory"))
         return fails
     is_gen = lambda p: rust_ext(p[-1]) == ext[1:]
     gen_after = {p: d for p, d in r["after"].items() if d is not None and is_gen(p)}
@@ -1017,15 +1022,15 @@ def oracle_c20(r):
         extra = sorted(set(gen_after) - set(gen_fresh))
         miss = sorted(set(gen_fresh) - set(gen_after))
         diff = sorted(p for p in gen_after if p in gen_fresh and gen_after[p] != gen_fresh[p])
-        fails.append(("export_canonical", 1, "after export: stale %s missing %s different %s vs. an export into an empty directory" % (
+        fails.append(("export_canonical", None, "after export: stale %s missing %s different %s vs. an export into an empty directory" % (
             ["/".join(p) for p in extra][:3], ["/".join(p) for p in miss][:3], ["/".join(p) for p in diff][:3])))
     if r["rc2"] == 0:
         ch = sorted(p for p in set(r["after"]) | set(r["after2"]) if r["after"].get(p, b"?") != r["after2"].get(p, b"?"))
         if ch:
-            fails.append(("export_idempotent", 1, "second export changed %s" % ["/".join(p) for p in ch][:3]))
+            fails.append(("export_idempotent", None, "second export changed %s" % ["/".join(p) for p in ch][:3]))
     outs = [os.path.relpath(os.path.join(r["pdir"], p), r["root"]) for _, p in r["exported"]]
     if len(set(outs)) != r["n_models"] or any(os.path.basename(p) == "mod" + ext for p in outs):
-        fails.append(("one_entity_per_model", 1, "%d models, %d distinct entity files %s" % (r["n_models"], len(set(outs)), sorted(set(outs))[:4])))
+        fails.append(("one_entity_per_model", None, "%d models, %d distinct entity files %s" % (r["n_models"], len(set(outs)), sorted(set(outs))[:4])))
     if r["orm"] == "seaorm":
         for rel in outs:
             parts = rel.split(os.sep)
@@ -1035,7 +1040,7 @@ def oracle_c20(r):
                 data = r["after"].get(prefix + ("mod.rs",))
                 lines = [] if data is None else [l.strip() for l in data.decode(errors="replace").splitlines()]
                 if ("pub mod %s;" % c) not in lines:
-                    fails.append(("mod_chain_reaches_all", 0, "entity %s: %s does not declare `pub mod %s;`" % (rel, "/".join(prefix + ("mod.rs",)), c)))
+                    fails.append(("mod_chain_reaches_all", None, "entity %s: %s does not declare `pub mod %s;`" % (rel, "/".join(prefix + ("mod.rs",)), c)))
                     break
                 prefix = prefix + (c,)
     dirs = [p for p, d in r["after"].items() if d is None]
@@ -1049,9 +1054,9 @@ def tree_layout(rng, tables, step):
     """model files of one step: moved between sub-directories / renamed / json<->yaml as the steps go on"""
     files = {}
     for t in tables:
-        sub = rng.choice(["", "", "sub/", "sub/deep/", "other/"])
+        sub = rng.choice(["", "", "sub/", "sub/deep/", "other/", "my dir/", "v1.2/x y/"])
         ext = rng.choice(["json", "json", "yaml", "yml"])
-        stem = t["name"] + (".vespertide" if rng.random() < 0.25 else "")
+        stem = t["name"] + rng.choice(["", "", "", ".v2", " copy"]) + (".vespertide" if rng.random() < 0.25 else "")
         files["%s%s.%s" % (sub, stem, ext)] = json.dumps(t["json"], indent=1) if ext == "json" else t["yaml"]
     return files
 
